@@ -43,6 +43,15 @@ Definition c13_run (input : list Z) : list Z :=
           end
       | _ => ERR_DECODE
       end
+    else if kind =? 5 then
+      match r with
+      | [t; op; secs; nanos] =>
+          match ts_from_unix t with
+          | Ok t0 => match (if op =? 0 then ts_checked_add_ns t0 secs nanos else ts_checked_sub_ns t0 secs nanos) with Some x => [1; x] | None => [0] end
+          | _ => [-1]
+          end
+      | _ => ERR_DECODE
+      end
     else if kind =? 4 then
       match r with
       | [a; b] =>
